@@ -95,8 +95,20 @@ func init() {
 }
 
 func init() {
+	Properties["C12"] = PropertySpec{
+		Rules: []string{"R-CONST", "R-LAZY", "R-MIRROR", "R-TWIN", "R-SELFCMP", "R-UNITS"},
+		Explanation: "Narrow claim. Of the cell geometry only what is visible in code shape is decided: none of the documented error allowances in cell.go, paddedcell.go, stuv.go and the " +
+			"interior-distance test of edge_distances.go is smaller than its derived value; the lazily computed middle of a padded cell is read only through its accessor; the point-to-cell " +
+			"conversion and Cell.ContainsPoint share one projection kernel; Cell.latitude/longitude and the CellID begin/end functions are mirror images.",
+		NotCovered: "that the distance functions are attained bounds, that children equal directly constructed cells, that bounding rectangles and caps contain the cell: numerical behaviour of the " +
+			"floating-point kernels (edge/vertex case analysis of distanceInternal, vertexChordDist2, edgeDistance) over all cells and targets.",
+	}
+	anchorFiles["C12"] = []string{"s2/cell.go", "s2/cellid.go", "s2/stuv.go", "s2/edge_distances.go", "s2/paddedcell.go"}
+}
+
+func init() {
 	Properties["C11"] = PropertySpec{
-		Rules: []string{"R-RANGE", "R-TWIN", "R-SELFCMP"},
+		Rules: []string{"R-RANGE", "R-TWIN", "R-SELFCMP", "R-NAMEPAIR", "R-NORMUSE"},
 		Explanation: "Narrow claim. Of the cell-union algebra only the comparison discipline is decided: every comparison of a cell's inclusive leaf range (RangeMin/RangeMax) with another id in " +
 			"cellunion.go, cellid.go, cell_index.go and s2intersect is inclusive on the right side; the first/last, begin/end and next/previous functions of CellID are mirror images; no test is duplicated " +
 			"and no value is compared with itself in these files.",
@@ -249,6 +261,7 @@ func init() {
 	// R-LOCK applies, the re-entry obligation (incremental updates, known finding D3 under C13/C14) does not.
 	only("C04", map[string][]string{"R-LOCK": {"atomic-status", "balanced", "publish", "status-store"}})
 	only("C06", map[string][]string{"R-ALLLOOPS": {"CrossingEdgeQuery"}})
+	only("C12", map[string][]string{"R-CONST": {"Cell)", "PaddedCell", "interiorDist", "maxXYZtoUVError", "cellPadding", "stuv", "poleMinLat"}, "R-MIRROR": {"projection"}, "R-TWIN": {"twin:s2.CellID.", "Cell.latitude"}, "R-UNITS": {"Cell)"}})
 	only("C11", map[string][]string{"R-RANGE": {"CellID)", "CellUnion", "cellunion", "CellIndex", "cellIndex", "s2intersect"}, "R-TWIN": {"twin:s2.CellID."}})
 	predicateConsts := []string{"maxDeterminantError", "detErrorMultiplier", "triage", "stableSign", "cosDistance", "sin2Distance", "s2.dblEpsilon", "s2.dblError", "r1.dblEpsilon", "s1.dblEpsilon"}
 	clipConsts := []string{"edgeClip", "faceClip", "intersectsRect", "cellPadding", "ShapeIndex)", "boundaryApproxIntersects", "ShrinkToFit"}
